@@ -557,7 +557,7 @@ pub fn main() {
             }
         }
     }
-    run.extra("exhaustive", J::Array(ex));
+    run.extra("exhaustive_spaces", J::Array(ex));
     run.exhaustive(all_complete);
 
     // 3. random scripts up to length 40
